@@ -387,6 +387,19 @@ func After(desc string, obj unsafe.Pointer) {
 	Point(desc, obj)
 }
 
+// MemYield is a scheduling point that the plain-memory pass explores like one of its own. It stands
+// behind the release of a lock inside library code that only a plain-memory race can make contended.
+func MemYield(desc string, obj unsafe.Pointer) {
+	s := S
+	if s == nil || s.abort || s.cur == nil {
+		return
+	}
+	t := s.cur
+	t.memPoint = true
+	Point(desc, obj)
+	t.memPoint = false
+}
+
 // Exit ends the execution as a process exit with the given code.
 func Exit(code int) {
 	s := S
